@@ -1,6 +1,8 @@
 HOOK_COMMITS = ["876062f"]
 
 ENGINES = [
+    dict(name="layoutmon", path="harness/src/bin/layoutmon", serves_properties=["C17", "C18", "C19", "C11"],
+         kind_free_text="layout grid, builder abandonment enumeration, conversion chains on the tracking allocator (red zones) and destructor log"),
     dict(name="gcmon", path="harness/src/bin/gcmon", serves_properties=["C01", "C02", "C03", "C04", "C05", "C06", "C07", "C08", "C09", "C10", "C11", "C14", "C20"],
          kind_free_text="history engine: real arena + shadow object graph + destructor log + tracking global allocator; random hostile histories and bounded-exhaustive scenario matrices; dbg/rel/ASan/Miri flavours"),
 ]
@@ -31,6 +33,9 @@ TEXT = {
     "C11": _t("Fault enumeration: injected panic at every trace-event position of every collection call and every body position of every callback kind of clean schedules, failing constructors; C01-C05 monitors judge the continued history, differentially against the fault-free twin.", _NOTE, "fault injection at enumerated points + base monitors", ),
     "C14": _t("M-roots: shadow multiset of handles vs survival (M-live/M-exact), fetch identity, foreign-handle rejection, handles outliving the arena.", _NOTE, "runtime monitor of dynamic roots"),
     "C20": _t("M-frame before/after every op on another arena plus bit-exact projection equality against a lone-arena replay, on random multi-arena interleavings.", _NOTE, "frame + projection (differential replay) monitors"),
+    "C17": _t("Geometry + byte-pattern + round-trip monitors over a generated layout grid, with the tracking allocator (requested vs released layout, red zones) natively and AddressSanitizer.", _NOTE, "layout grid under tracking allocator with red zones; ASan", engine="layoutmon"),
+    "C18": _t("Abandonment-point enumeration for every builder kind with destructor-log and allocator-outstanding-block oracles.", _NOTE, "abandonment-point enumeration under destructor/allocator logs", engine="layoutmon"),
+    "C19": _t("Seeded conversion chains judged for identity, survival and single destruction; ZstCache grid; (conjuring probes: compile + run).", _NOTE, "conversion-chain monitor; ZstCache grid", engine="layoutmon"),
 }
 
-NOT_APPLICABLE = {p: "check not built yet in this revision (in progress)" for p in ["C12", "C13", "C15", "C16", "C17", "C18", "C19"]}
+NOT_APPLICABLE = {p: "check not built yet in this revision (in progress)" for p in ["C12", "C13", "C15", "C16"]}
